@@ -260,7 +260,7 @@ def stepU (cfg : Cfg) (σ : State) (k : Nat) (arg : Conn) : Option State :=
     if σ.sub = none then
       some { σ with sub := some (.u k), upc := set σ.upc k (.sending m p e (listeners cfg σ m p)) }
     else none
-  | .sending m p e [] =>
+  | .sending m _ _ [] =>
     some { σ with sub := none, upc := set σ.upc k (.relUpd m true) }
   | .sending m p e (x :: l) =>
     if arg ∈ x :: l then
